@@ -291,6 +291,27 @@ func vh11Run(t *testing.T, o *vhOut, id int, r *rand.Rand, s vh11Spec, big bool)
 				}
 			}
 		}
+		// "fills p up to end of file" / "n = len(p) when the backend accepts everything": with a backend that was not
+		// scripted to answer short or to fail, the count is all there is (for the long runs this is evaluated here,
+		// with the content; for the others in Coq: ChunkCases.fills_to_eof)
+		if ok && len(s.tape) == 0 && s.lenp > 30000 {
+			want := s.lenp
+			if !s.write {
+				avail := int64(0)
+				if s.flen > 0 {
+					avail = s.base + int64(s.flen) - s.off
+				}
+				if avail < 0 {
+					avail = 0
+				}
+				if int64(want) > avail {
+					want = int(avail)
+				}
+			}
+			if n != want {
+				ok = false
+			}
+		}
 		if s.lenp <= 30000 { // (longer list literals overflow coqc's stack)
 			// content compared in Coq: buffers and file given by their generator parameters
 			stored := 0
@@ -484,19 +505,21 @@ func TestVerifC11(t *testing.T) {
 	}
 	// (c) end to end, larger msize up to 1 MiB and more: length level + content checked here
 	// quick: up to 64 KiB (the length-level evaluation in Coq is unary); MiB-sized runs in the thorough tier
-	bigs := []uint32{2201, 4096, 8192, 65536}
+	// 131072: chunks of 130560 bytes (> 65535: a 16-bit count would show); 1 MiB: two runs in the quick tier
+	bigs := []uint32{2201, 4096, 8192, 65536, 131072, 1 << 20}
 	if vhThorough() {
-		bigs = append(bigs, 4097, 1<<20, 1<<20+1)
+		bigs = append(bigs, 4097, 1<<20+1)
 	}
 	for _, msize := range bigs {
 		cs := vh11Payload(msize)
 		for _, k := range []int{1, 2, 3} {
 			for _, d := range []int{-1, 0, 1} {
 				// unary numbers in the Coq evaluation: keep the MiB-sized runs few in the quick tier
-				if msize >= 1<<20 && !vhThorough() && !(k == 2 && d == 1) && !(k == 1 && d == 0) {
-					continue
-				}
-				if !vhThorough() && ((msize >= 4096 && k == 3) || (msize >= 8192 && d != 0)) {
+				if msize >= 1<<20 && !vhThorough() {
+					if !(k == 2 && d == 1) && !(k == 1 && d == 0) {
+						continue
+					}
+				} else if !vhThorough() && ((msize >= 4096 && k == 3) || (msize >= 8192 && d != 0)) {
 					continue
 				}
 				for _, write := range []bool{true, false} {
